@@ -171,7 +171,51 @@ pub fn desc_json(d: &Desc) -> Value {
 }
 
 pub fn family_from(v: &Value) -> MetricFamily {
+    family_from_mode(v, None)
+}
+
+/// a value of each model type that has been used for something else before (every field a collector could have touched is set)
+fn dirty_pair() -> proto::LabelPair {
+    let mut lp = proto::LabelPair::default();
+    lp.set_name("dirty".to_owned());
+    lp.set_value("dirty value".to_owned());
+    lp
+}
+
+fn dirty_metric() -> proto::Metric {
+    let mut pm = proto::Metric::from_label(vec![dirty_pair(), dirty_pair()]);
+    let mut g = proto::Gauge::default(); g.set_value(99.0); pm.set_gauge(g);
+    let mut c = proto::Counter::default(); c.set_value(98.0); pm.set_counter(c);
+    let mut h = proto::Histogram::default(); h.set_sample_count(97); h.set_sample_sum(96.0);
+    let mut b = proto::Bucket::default(); b.set_upper_bound(95.0); b.set_cumulative_count(94); h.set_bucket(vec![b]);
+    pm.set_histogram(h);
+    pm.set_timestamp_ms(77);
+    pm
+}
+
+fn dirty_family(t: proto::MetricType) -> MetricFamily {
     let mut mf = MetricFamily::default();
+    mf.set_name("dirty".to_owned());
+    mf.set_help("dirty help".to_owned());
+    mf.set_field_type(t);
+    mf.set_metric(vec![dirty_metric(), dirty_metric()]);
+    mf
+}
+
+/// `mode`: how the collector obtains the objects it fills in —
+///   None            fresh default values and the setters;
+///   "clear"         recycled values: a used family / label pair is emptied with the methods both models have (clear_name, take_label, take_metric) and filled again,
+///                   samples are pushed through mut_metric();
+///   "clone_from"    the result is copied OVER used values of other types with Clone::clone_from (as `kept.clone_from(&gathered)` does).
+pub fn family_from_mode(v: &Value, mode: Option<&str>) -> MetricFamily {
+    let recycle = mode == Some("clear");
+    let mut mf = MetricFamily::default();
+    if recycle {
+        mf.set_name("dirty".to_owned());
+        mf.set_metric(vec![dirty_metric()]);
+        mf.clear_name();
+        drop(mf.take_metric());
+    }
     if let Some(n) = v.get("name").and_then(|x| x.as_str()) {
         mf.set_name(n.to_owned());
     }
@@ -193,11 +237,26 @@ pub fn family_from(v: &Value) -> MetricFamily {
         let mut lps = vec![];
         for (k, val) in pairs(m.get("labels")) {
             let mut lp = proto::LabelPair::default();
-            lp.set_name(k);
-            lp.set_value(val);
+            if recycle {
+                // a used pair renamed: the value is in place when the name is cleared and set (clearing one field leaves the others)
+                lp = dirty_pair();
+                lp.set_value(val);
+                lp.clear_name();
+                lp.set_name(k);
+            } else {
+                lp.set_name(k);
+                lp.set_value(val);
+            }
             lps.push(lp);
         }
-        let mut pm = proto::Metric::from_label(lps);
+        let mut pm = if recycle {
+            let mut d = proto::Metric::from_label(vec![dirty_pair()]);
+            drop(d.take_label());
+            d.set_label(lps);
+            d
+        } else {
+            proto::Metric::from_label(lps)
+        };
         if let Some(ts) = m.get("ts").and_then(|x| x.as_i64()) {
             if ts != 0 || m.get("ts_force").is_some() {
                 pm.set_timestamp_ms(ts);
@@ -248,9 +307,35 @@ pub fn family_from(v: &Value) -> MetricFamily {
                 _ => panic!("harness: setter {}", which),
             }
         }
-        ms.push(pm);
+        if mode == Some("clone_from") {
+            let mut d = dirty_metric();
+            d.clone_from(&pm);
+            pm = d;
+        }
+        if recycle {
+            mf.mut_metric().push(pm);
+        } else {
+            ms.push(pm);
+        }
     }
-    mf.set_metric(ms);
+    if recycle {
+        let taken = mf.take_metric();
+        mf.set_metric(taken);
+        // ... and the family renamed to its own name once everything else is in place
+        if let Some(n) = v.get("name").and_then(|x| x.as_str()) {
+            mf.clear_name();
+            mf.set_name(n.to_owned());
+        }
+    } else {
+        mf.set_metric(ms);
+    }
+    if mode == Some("clone_from") {
+        // over a used family of ANOTHER type
+        let other = if mf.get_field_type() == proto::MetricType::SUMMARY { proto::MetricType::HISTOGRAM } else { proto::MetricType::SUMMARY };
+        let mut d = dirty_family(other);
+        d.clone_from(&mf);
+        return d;
+    }
     mf
 }
 
@@ -293,7 +378,15 @@ fn families_of(env: &Env, c: &Value) -> Vec<MetricFamily> {
             _ => panic!("harness: no families {}", f),
         }
     } else if let Some(l) = c.get("lit").and_then(|x| x.as_array()) {
-        l.iter().map(family_from).collect()
+        let mode = c.get("recycle").and_then(|x| x.as_str());
+        let built: Vec<MetricFamily> = l.iter().map(|f| family_from_mode(f, mode)).collect();
+        if mode == Some("clone_from") {
+            // ... and the list itself over a kept list of used families (one more than needed, other types)
+            let mut kept: Vec<MetricFamily> = (0..built.len() + 1).map(|i| dirty_family(if i % 2 == 0 { proto::MetricType::HISTOGRAM } else { proto::MetricType::GAUGE })).collect();
+            kept.clone_from(&built);
+            return kept;
+        }
+        built
     } else {
         panic!("harness: no family source")
     }
